@@ -33,6 +33,8 @@ def sampling():
     d['hz'] = F(1)
     r = Num(d, (), False, taint=frozenset(['sampling']), nonneg=True)
     r.q = Aff(0)
+    import sympy as _sp
+    r.fsf = _sp.Integer(1)         # the unit of the frequency-axis domain
     return r
 
 
